@@ -430,6 +430,61 @@ def stage_structural_sweep(ctx: Ctx):
                                       {**rec, 'result_src': root.src, 'diffs': d})
 
 
+PAR_PROGS = ['yy: int = cc\n(zz): int\nq.r: int = 1\n', 'a = b, c\nfor i, j in k: pass\nx[i, j] = y\n', 'f(a, *b, k=c, **d)\nclass K(A, *B, m=M): pass\n', 'x = a + b * -c if d else [e, f][0]\n',
+             'with a as b, (c, d) as e: pass\n', 'match s:\n    case a | b, [c, *d], {1: e}, K(f, g=h) as i: pass\n', 'x = lambda a, b=1: (yield)\nawait_ = [i for i in j if k]\n',
+             "x = f'{a!r:>{w}} {b}'\ny = 'a' 'b'\n", 'del a, (b), c.d\nreturn_ = not a\nassert a, b\n', 'x = a if b else c\ny = (a, b)\nz = a[b:c, d]\n', 'import a\nx = (yield a)\ntype T[U: int] = V\n',
+             'é = ü + "ö" * z\n(é): ü = 1\n']
+
+
+def stage_par_unpar(ctx: Ctx):
+    """deterministic: par(force) / unpar() on every expression and pattern node of a set of programs (targets of annotated assignments, starred elements, with-items, slices ...):
+    after each call the tree still equals the parse of its source (a refusal leaves both as they were); then the opposite call; both directions, force False / True"""
+    import fst
+    for src in PAR_PROGS:
+        probe = fst.FST(src, 'exec')
+        paths = [probe.child_path(f, True) for f in probe.walk(True) if isinstance(f.a, (ast.expr, ast.pattern))]
+        for path in paths:
+            for ops in (('par', 'unpar'), ('par_force', 'unpar'), ('unpar', 'par'), ('unpar_node', 'par'), ('par_force', 'par_force', 'unpar')):
+                root = fst.FST(src, 'exec')
+                node = root.child_from_path(path)
+                done = []
+                for op in ops:
+                    before = root.src
+                    rec = {'src': src, 'node': path, 'node_src': node.src if node.a is not None else None, 'calls': done + [op]}
+                    try:
+                        if op == 'par':
+                            node.par()
+                        elif op == 'par_force':
+                            node.par(True)
+                        elif op == 'unpar':
+                            node.unpar()
+                        else:
+                            node.unpar(node=True)
+                    except Exception as e:
+                        ctx.tick(None, 'par:refused')
+                        if root.src != before:
+                            ctx.violation('par-unpar|refusal-dirty', 'a refused par() / unpar() changed the source', {**rec, 'error': repr(e)[:200], 'after': root.src})
+                        break
+                    done.append(op)
+                    ctx.tick((src, path, tuple(done)), 'par:' + op + (':changed' if root.src != before else ':noop'))
+                    d = reparse_diffs(root)
+                    if d and op.startswith('unpar'):
+                        # documented: unpar() does no parsability validation - removing parentheses that are needed is the caller's business; what is checked is that a removal
+                        # which keeps the structure leaves positions and derived fields right
+                        ds = reparse_diffs(root, positions=False)
+                        if ds and not all('simple' in x for x in ds):
+                            ctx.tick(None, 'par:unpar-of-needed-parentheses')
+                            break
+                    if d:
+                        ctx.violation(f'par-unpar|{classify_par(d)}', 'after par() / unpar() the tree is not the parse of its source', {**rec, 'after': root.src, 'diffs': d[:6]})
+                        break
+
+
+def classify_par(d):
+    s = ' '.join(d[:3])
+    return 'does-not-parse' if 'does not parse' in s else 'AnnAssign.simple' if 'simple' in s else 'positions' if ('lineno' in s or 'col_offset' in s) else 'structure'
+
+
 def run(ctx: Ctx):
     ctx.rule = ('random edit sequences (length 1..8 quick / 1..30 thorough) over the hand corpus + generated programs; ops: replace/remove/cut of '
                 'expressions, statements, patterns; put_slice/insert/extend/prextend of statements and expressions; put(one); attribute '
@@ -449,6 +504,7 @@ def run(ctx: Ctx):
         run_guarded(ctx, stage_sequences, progs, tracer)
     run_guarded(ctx, stage_operator_sweep)
     run_guarded(ctx, stage_structural_sweep)
+    run_guarded(ctx, stage_par_unpar)
     if ok:
         try:
             failed = coq_eval_bools('C01_troff', HDR, tracer.terms_offset, shard=40)
